@@ -43,6 +43,8 @@ type c02World struct {
 	docs    []string
 	attDoc  string
 	attMark string
+	att2Mark  string
+	att2Chans []string
 	users   map[string][]string // effective channels
 	variant string
 }
@@ -118,6 +120,20 @@ func c02Build(t testing.TB, variant string) *c02World {
 	av := rt.PutDocWithAttachment("docatt", c02Body("docatt", "1", []string{"A"}), "a.txt", base64.StdEncoding.EncodeToString([]byte(w.attMark)))
 	w.add("docatt", "1", av.RevTreeID, []string{"A"}, false)
 	w.attDoc = "docatt"
+	// a document that had no attachment while it was in the first channel and gained one when it moved to the second
+	mv := put("docattmoved", "1", first)
+	w.att2Mark = "ATT2SECRETkx"
+	{
+		var bm map[string]any
+		_ = json.Unmarshal([]byte(c02Body("docattmoved", "2", second)), &bm)
+		bm["_attachments"] = map[string]any{"late.txt": map[string]any{"data": base64.StdEncoding.EncodeToString([]byte(w.att2Mark))}}
+		bb, _ := json.Marshal(bm)
+		resp := rt.SendAdminRequest("PUT", "/{{.keyspace}}/docattmoved?rev="+mv.RevTreeID, string(bb))
+		RequireStatus(t, resp, http.StatusCreated)
+		mv2 := DocVersionFromPutResponse(t, resp)
+		w.add("docattmoved", "2", mv2.RevTreeID, second, false)
+	}
+	w.att2Chans = second
 	// access() grant of channel A to uAcc from a document in a channel nobody has
 	rt.PutDoc("grantdoc", `{"channels":["G"],"grant_user":"uAcc","grant_chan":"A"}`)
 	if variant == "principals-last" {
@@ -195,6 +211,20 @@ func (w *c02World) requests() []c02Case {
 		add("POST", ks+"_revs_diff", string(rd), false)
 	}
 	add("GET", ks+w.attDoc+"/a.txt", "", false)
+	for _, rev := range revsByDoc["docattmoved"] {
+		add("GET", ks+"docattmoved/late.txt?rev="+rev, "", false)
+	}
+	add("GET", ks+"docattmoved/late.txt", "", false)
+	// changes restricted to given document ids (every document, incl. ones the user never had)
+	var ids []string
+	for _, d := range w.docs {
+		ids = append(ids, d)
+	}
+	idsJSON, _ := json.Marshal(ids)
+	add("GET", ks+"_changes?filter=_doc_ids&doc_ids="+url.QueryEscape(string(idsJSON)), "", true)
+	add("GET", ks+"_changes?filter=_doc_ids&include_docs=true&doc_ids="+url.QueryEscape(string(idsJSON)), "", true)
+	add("POST", ks+"_changes", `{"filter":"_doc_ids","doc_ids":`+string(idsJSON)+`,"include_docs":true}`, true)
+	add("POST", ks+"_changes", `{"filter":"_doc_ids","doc_ids":`+string(idsJSON)+`,"since":3}`, true)
 	for _, r := range w.revs {
 		if r.doc == w.attDoc {
 			add("GET", ks+w.attDoc+"/a.txt?rev="+r.rev, "", false)
@@ -246,6 +276,11 @@ func (w *c02World) check(r *vreport.Report, c c02Case) {
 	if strings.Contains(raw, w.attMark) || strings.Contains(raw, base64.StdEncoding.EncodeToString([]byte(w.attMark))) {
 		if !w.canSee(c.User, []string{"A"}) {
 			r.Violate("C02/attachment-disclosed/"+surface, fmt.Sprintf("user %s received the attachment data of %s from %s %s [%s cache]", c.User, w.attDoc, c.Method, c.Path, c.Cache), c)
+		}
+	}
+	if w.att2Mark != "" && (strings.Contains(raw, w.att2Mark) || strings.Contains(raw, base64.StdEncoding.EncodeToString([]byte(w.att2Mark)))) {
+		if !w.canSee(c.User, w.att2Chans) {
+			r.Violate("C02/attachment-disclosed/"+surface, fmt.Sprintf("user %s (channels %v) received the data of the attachment that docattmoved only carries in its revision in channels %v, from %s %s [%s cache, variant %s]", c.User, w.users[c.User], w.att2Chans, c.Method, c.Path, c.Cache, w.variant), c)
 		}
 	}
 	if c.Listing {
